@@ -307,6 +307,13 @@ def LabelSoundAt (p : Prog) (ls : List Nat) (v : Nat) : Prop :=
   ((p.nd v).kind.defining = false → ls.getD v 0 = ls.getD (p.nd v).a 0) ∧
   ((p.nd v).kind = .add → ls.getD v 0 = ls.getD (p.nd v).b 0)
 
+/-- `stepLabel` only ever renames labels of the earlier nodes -/
+theorem tieLabels_eq_map (ls : List Nat) (nd : Node) : ∃ g : Nat → Nat, tieLabels ls nd = ls.map g := by
+  unfold tieLabels relabel
+  split
+  · exact ⟨_, rfl⟩
+  · exact ⟨id, by simp⟩
+
 theorem sound_preserved (p : Prog) (f : Nat → Nat) (ls : List Nat) (x v : Nat) (hv : v < ls.length)
     (hab : (p.nd v).kind ≠ .input → (p.nd v).a < ls.length ∧ (p.nd v).b < ls.length)
     (h : LabelSoundAt p ls v) : LabelSoundAt p (ls.map f ++ [x]) v := by
@@ -368,21 +375,23 @@ theorem labels_inv (p : Prog) (hwf : WF p) : ∀ (k : Nat), k ≤ p.length →
       cases hkind : (p.nd k).kind with
       | input => exact absurd hkind hin
       | conv =>
-        have hstep : stepLabel ls (p.nd k) = ls.map id ++ [ls.length] := by simp [stepLabel, hkind]
+        obtain ⟨g, hg⟩ := tieLabels_eq_map ls (p.nd k)
+        have hstep : stepLabel ls (p.nd k) = ls.map g ++ [ls.length] := by simp [stepLabel, hkind, hg]
         rw [hstep]
         refine ⟨by simp [hlen], fun v hv => ?_⟩
         by_cases hvk : v < k
-        · exact hold id _ v hvk
+        · exact hold g _ v hvk
         · have : v = k := by omega
           subst this
           exact ⟨fun hd => by rw [hkind] at hd; simp [Kind.defining] at hd,
                  fun hadd => by rw [hkind] at hadd; cases hadd⟩
       | linear =>
-        have hstep : stepLabel ls (p.nd k) = ls.map id ++ [ls.length] := by simp [stepLabel, hkind]
+        obtain ⟨g, hg⟩ := tieLabels_eq_map ls (p.nd k)
+        have hstep : stepLabel ls (p.nd k) = ls.map g ++ [ls.length] := by simp [stepLabel, hkind, hg]
         rw [hstep]
         refine ⟨by simp [hlen], fun v hv => ?_⟩
         by_cases hvk : v < k
-        · exact hold id _ v hvk
+        · exact hold g _ v hvk
         · have : v = k := by omega
           subst this
           exact ⟨fun hd => by rw [hkind] at hd; simp [Kind.defining] at hd,
@@ -411,7 +420,25 @@ theorem labels_inv (p : Prog) (hwf : WF p) : ∀ (k : Nat), k ≤ p.length →
           · intro _
             rw [hnew, getD_append_lt _ _ _ _ (by rw [hl2]; exact hbk), getD_map_lt _ ls 0 0 _ hbk']
             simp
-      | dw | pass | flatten | output =>
+      | dw =>
+        obtain ⟨g, hg⟩ := tieLabels_eq_map ls (p.nd k)
+        have hstep : stepLabel ls (p.nd k) = ls.map g ++ [(ls.map g).getD (p.nd k).a 0] := by
+          simp [stepLabel, hkind, hg]
+        rw [hstep]
+        refine ⟨by simp [hlen], fun v hv => ?_⟩
+        by_cases hvk : v < k
+        · exact hold g _ v hvk
+        · have : v = k := by omega
+          subst this
+          have hl2 : (ls.map g).length = v := by simp [hlen]
+          have hnew : (ls.map g ++ [(ls.map g).getD (p.nd v).a 0]).getD v 0 = (ls.map g).getD (p.nd v).a 0 := by
+            have := getD_append_len (ls.map g) ((ls.map g).getD (p.nd v).a 0) 0
+            rw [hl2] at this; exact this
+          constructor
+          · intro _
+            rw [hnew, getD_append_lt _ _ _ _ (by rw [hl2]; exact hak)]
+          · intro hadd; rw [hkind] at hadd; cases hadd
+      | pass | flatten | output =>
         have hstep : stepLabel ls (p.nd k) = ls.map id ++ [ls.getD (p.nd k).a 0] := by
           simp [stepLabel, hkind]
         rw [hstep]
@@ -437,6 +464,78 @@ theorem labels_sound (p : Prog) (hwf : WF p) (v : Nat) (hv : v < p.length) :
     ((p.nd v).kind = .add → p.lab v = p.lab (p.nd v).b) := by
   have := (labels_inv p hwf p.length (le_refl _)).2 v hv
   simpa [LabelSoundAt, Prog.lab, labels] using this
+
+/-! ### tie edge: the tensors fed to the call sites of one layer module share a component -/
+
+def TieAt (p : Prog) (ls : List Nat) (v : Nat) : Prop :=
+  (p.nd v).dup = true → (p.nd v).kind.isLayer = true → (p.nd v).ta < v →
+    ls.getD (p.nd v).a 0 = ls.getD (p.nd v).ta 0
+
+theorem stepLabel_shape (ls : List Nat) (nd : Node) : ∃ (f : Nat → Nat) (x : Nat), stepLabel ls nd = ls.map f ++ [x] := by
+  obtain ⟨g, hg⟩ := tieLabels_eq_map ls nd
+  unfold stepLabel
+  cases nd.kind <;> simp only [hg]
+  case add => exact ⟨_, _, rfl⟩
+  case conv => exact ⟨g, _, rfl⟩
+  case linear => exact ⟨g, _, rfl⟩
+  case dw => exact ⟨g, _, rfl⟩
+  case input => exact ⟨id, ls.length, by simp⟩
+  all_goals exact ⟨id, ls.getD nd.a 0, by simp⟩
+
+theorem tie_preserved (p : Prog) (f : Nat → Nat) (ls : List Nat) (x v : Nat) (hv : v < ls.length)
+    (ha : (p.nd v).a < ls.length) (h : TieAt p ls v) : TieAt p (ls.map f ++ [x]) v := by
+  intro d l t
+  have ht : (p.nd v).ta < ls.length := by omega
+  have hlen : (ls.map f).length = ls.length := by simp
+  rw [getD_append_lt _ _ _ _ (by rw [hlen]; exact ha), getD_append_lt _ _ _ _ (by rw [hlen]; exact ht),
+      getD_map_lt f ls 0 0 _ ha, getD_map_lt f ls 0 0 _ ht, h d l t]
+
+theorem labels_tie_inv (p : Prog) (hwf : WF p) : ∀ (k : Nat), k ≤ p.length →
+    ∀ v, v < k → TieAt p ((p.take k).foldl stepLabel []) v := by
+  intro k
+  induction k with
+  | zero => intro _ v hv; omega
+  | succ k ih =>
+    intro hk v hv
+    have hk' : k < p.length := by omega
+    have hlen := (labels_inv p hwf k (by omega)).1
+    rw [take_succ_nd p k hk', List.foldl_append]
+    simp only [List.foldl_cons, List.foldl_nil]
+    generalize hls : (p.take k).foldl stepLabel [] = ls at hlen
+    have ih' := ih (by omega)
+    rw [hls] at ih'
+    by_cases hvk : v < k
+    · obtain ⟨f, x, hfx⟩ := stepLabel_shape ls (p.nd k)
+      rw [hfx]
+      by_cases hin : (p.nd v).kind = .input
+      · intro _ l _; rw [hin] at l; simp [Kind.isLayer] at l
+      · have hav := (hwf v (by omega) hin).1
+        exact tie_preserved p f ls x v (by omega) (by omega) (ih' v hvk)
+    · have : v = k := by omega
+      subst this
+      intro d l t
+      have hne : (p.nd v).kind ≠ .input := by intro h; rw [h] at l; simp [Kind.isLayer] at l
+      have hav : (p.nd v).a < ls.length := by rw [hlen]; exact (hwf v hk' hne).1
+      have htv : (p.nd v).ta < ls.length := by rw [hlen]; exact t
+      have key : ∀ x, (relabel (ls.getD (p.nd v).a 0) (ls.getD (p.nd v).ta 0) ls ++ [x]).getD (p.nd v).a 0
+          = (relabel (ls.getD (p.nd v).a 0) (ls.getD (p.nd v).ta 0) ls ++ [x]).getD (p.nd v).ta 0 := by
+        intro x
+        have hl2 : (relabel (ls.getD (p.nd v).a 0) (ls.getD (p.nd v).ta 0) ls).length = ls.length := by
+          simp [relabel]
+        rw [getD_append_lt _ _ _ _ (by rw [hl2]; exact hav), getD_append_lt _ _ _ _ (by rw [hl2]; exact htv)]
+        unfold relabel
+        rw [getD_map_lt _ ls 0 0 _ hav, getD_map_lt _ ls 0 0 _ htv]
+        simp only [if_true]
+        split <;> rfl
+      cases hk2 : (p.nd v).kind <;> simp [hk2, Kind.isLayer] at l <;>
+        simp only [stepLabel, hk2, tieLabels, d, if_true] <;> exact key _
+
+/-- **call sites of one layer module read tensors of one sharing component** (after 3725f20) -/
+theorem labels_tie (p : Prog) (hwf : WF p) (v : Nat) (hv : v < p.length) (hd : (p.nd v).dup = true)
+    (hl : (p.nd v).kind.isLayer = true) (ht : (p.nd v).ta < v) :
+    p.lab (p.nd v).a = p.lab (p.nd v).ta := by
+  have := labels_tie_inv p hwf p.length (le_refl _) v hv hd hl ht
+  simpa [Prog.lab, labels] using this
 
 /-- a tensor was last quantized either by the activation quantizer of its own sharing component or
 by a network-input quantizer -/
